@@ -19,6 +19,7 @@ package age
 //@   loop 1 decreases len(stanzas) - rangeindex
 //@   ensures#nomatch (forall j in 0..len(stanzas) :: wraps(apply(unwrap, 1, stanzas[j]), ErrIncorrectIdentity)) ==> result0 == nil && result1 == ErrIncorrectIdentity   [C01 C04]
 //@   ensures#first forall k in 0..len(stanzas) :: (!wraps(apply(unwrap, 1, stanzas[k]), ErrIncorrectIdentity) && (forall j in 0..k :: wraps(apply(unwrap, 1, stanzas[j]), ErrIncorrectIdentity))) ==> ((apply(unwrap, 1, stanzas[k]) != nil ==> result0 == nil && result1 == apply(unwrap, 1, stanzas[k])) && (apply(unwrap, 1, stanzas[k]) == nil ==> same(result0, apply(unwrap, 0, stanzas[k])) && result1 == nil))   [C01 C04]
+//@   ensures#nil result1 != nil ==> result0 == nil   [C01 C04]
 //@   modifies nothing
 
 //@ const HKDF32 := 32
@@ -46,20 +47,125 @@ package age
 //@   loop 1 invariant#copy disjoint(stanzas, hdr.Recipients) && (forall j in 0..rangeindex+1 :: stanzas[j] == hdr.Recipients[j])     [C01]
 //@   loop 1 decreases len(hdr.Recipients) - rangeindex
 //@   loop 2 invariant -1 <= rangeindex && rangeindex < len(identities)
-//@   loop 2 invariant#count $uwn == old($uwn) + rangeindex + 1 && fileKey == nil                                                      [C01 C04]
-//@   loop 2 invariant#errs len(errNoMatch.Errors) == rangeindex+1                                                                     [C04]
+//@   loop 2 invariant#count $uwn == old($uwn) + rangeindex + 1                                                                        [C01 C04]
+//@   loop 2 invariant#nokey fileKey == nil                                                                                              [C01]
 //@   loop 2 invariant#frame unchanged(identities) && disjoint(errNoMatch.Errors, identities)                                           [C01 C04 C14]
-//@   loop 2 invariant#log forall j in 0..rangeindex+1 :: ($uwid[old($uwn)+j] == identities[j] && wraps($uwerr[old($uwn)+j], EII))      [C01 C04]
-//@   loop 2 invariant#errlog forall j in 0..rangeindex+1 :: errNoMatch.Errors[j] == $uwerr[old($uwn)+j]                                [C04]
+//@   loop 2 invariant#log forall j in 0..rangeindex+1 :: ($uwid[old($uwn)+j] == identities[j] && wraps($uwerr[old($uwn)+j], EII))      [C01]
+//@   loop 2 invariant#alleii (forall j in 0..rangeindex+1 :: wraps($uwerr[old($uwn)+j], EII)) ==> (fileKey == nil && len(errNoMatch.Errors) == rangeindex+1 && (forall j in 0..rangeindex+1 :: errNoMatch.Errors[j] == $uwerr[old($uwn)+j]))   [C04]
 //@   loop 2 decreases len(identities) - rangeindex
 //@   call Unwrap#0 requires len(arg1) == len(hdr.Recipients) && (forall j in 0..len(arg1) :: arg1[j] == hdr.Recipients[j])             [C01]
 //@   ensures#nilxor (rd == nil) <==> (err != nil)                                                              [C03 C04 C07 C14]
 //@   ensures#order $uwn - old($uwn) <= len(identities) && (forall j in 0..$uwn-old($uwn) :: $uwid[old($uwn)+j] == identities[j])   [C01]
 //@   ensures#stopfirst forall j in 0..$uwn-old($uwn)-1 :: wraps($uwerr[old($uwn)+j], EII)                      [C01]
 //@   ensures#nomatch (len(identities) > 0 && $uwn - old($uwn) == len(identities) && (forall j in 0..len(identities) :: wraps($uwerr[old($uwn)+j], EII))) ==> rd == nil && typeis(err, "*filippo.io/age.NoIdentityMatchError") && len(cast(err, "filippo.io/age.NoIdentityMatchError").Errors) == len(identities) && (forall j in 0..len(identities) :: cast(err, "filippo.io/age.NoIdentityMatchError").Errors[j] == $uwerr[old($uwn)+j])   [C04]
-//@   ensures#keyok err == nil ==> $uwn > old($uwn) && $uwerr[$uwn-1] == nil && !isnil($uwkey[$uwn-1]) && same($uwkey[$uwn-1], fileKey)   [C01 C04]
+//@   ensures#keyok err == nil ==> $uwn > old($uwn) && $uwerr[$uwn-1] == nil && !isnil($uwkey[$uwn-1]) && same($uwkey[$uwn-1], fileKey)   [C01]
 //@   ensures#mac err == nil ==> $eqcalls == old($eqcalls)+1 && $eqr && $eqb == bytes(hdr.MAC) && $eqa == hmac256(sub(hkdfstream(bytes(fileKey), "", "header"), 0, 32), hdrbytes(hdr))   [C03 C05]
 //@   ensures#reader err == nil ==> typeis(rd, "*filippo.io/age/internal/stream.Reader") && cast(rd, "filippo.io/age/internal/stream.Reader").src == payload && cast(rd, "filippo.io/age/internal/stream.Reader").a.$key == sub(hkdfstream(bytes(fileKey), bytes(nonce), "payload"), 0, 32)   [C01 C02 C05]
 //@   call io.ReadFull#1 requires arg0 == payload && same(arg1, nonce) && len(nonce) == 16       [C02 C05]
 //@   call hmac.Equal#1 requires same(arg0, mac) && same(arg1, hdr.MAC)                          [C03]
 //@   call streamKey#1 requires same(arg0, fileKey) && same(arg1, nonce)                         [C02 C05]
+
+//@ func wrapWithLabels(r, fileKey) (s, labels, err)
+//@   requires r != nil
+//@   ensures#stanzas err == nil ==> (forall j in 0..len(s) :: s[j] != nil)
+//@   ensures#draws $draws >= old($draws)
+//@   ensures#nolabels !typeimpl(r, "filippo.io/age.RecipientWithLabels") ==> labels == nil      [C10 C11]
+//@   fresh s when len(s) > 0
+//@   fresh labels when len(labels) > 0
+//@   modifies $draws
+
+//@ func aeadEncrypt(key, plaintext) (ct, err)
+//@   call chacha20poly1305.New#1 requires same(arg0, key)                                                         [C05]
+//@   call Seal#1 requires arg1 == nil && bytes(arg2) == zeros(12) && len(arg2) == 12 && same(arg3, plaintext) && arg4 == nil   [C05 C06]
+//@   ensures#err err == nil <==> len(key) == 32
+//@   ensures#val err == nil ==> bytes(ct) == seal(old(bytes(key)), zeros(12), old(bytes(plaintext))) && len(ct) == len(plaintext) + 16   [C01 C05]
+//@   ensures#nil err != nil ==> ct == nil
+//@   fresh ct when err == nil
+//@   modifies nothing
+
+//@ func aeadDecrypt(key, size, ciphertext) (pt, err)
+//@   requires 0 <= size && size <= 65536
+//@   call chacha20poly1305.New#1 requires same(arg0, key)                                                         [C05]
+//@   call Open#1 requires arg1 == nil && bytes(arg2) == zeros(12) && len(arg2) == 12 && same(arg3, ciphertext) && arg4 == nil   [C05]
+//@   ensures#size len(key) == 32 && len(ciphertext) != size + 16 ==> err == errIncorrectCiphertextSize && pt == nil           [C04 C05 C14]
+//@   ensures#ok len(key) == 32 && len(ciphertext) == size + 16 ==> (err == nil <==> openok(old(bytes(key)), zeros(12), old(bytes(ciphertext))))   [C01 C04]
+//@   ensures#val err == nil ==> bytes(pt) == open(old(bytes(key)), zeros(12), old(bytes(ciphertext))) && len(pt) == size && len(ciphertext) == size + 16   [C01 C04]
+//@   ensures#nil err != nil ==> pt == nil
+//@   ensures#notsize len(key) == 32 && len(ciphertext) == size + 16 ==> err != errIncorrectCiphertextSize
+//@   fresh pt when err == nil && len(pt) > 0
+//@   modifies nothing
+
+//@ const X25519LABEL := "age-encryption.org/v1/X25519"
+//@ const SCRYPTLABEL := "age-encryption.org/v1/scrypt"
+
+//@ pred x25519Key(shared, eph, their) := sub(hkdfstream(shared, cat(eph, their), X25519LABEL), 0, 32)
+
+//@ func (*X25519Recipient).Wrap(r, fileKey) (stanzas, err)
+//@   requires len(r.theirPublicKey) == 32
+//@   call rand.Read#1 requires len(arg0) == 32                                                                                   [C06]
+//@   call X25519#1 requires bytes(arg0) == csprng(old($draws), 32) && bytes(arg1) == basepoint()                                 [C05 C06]
+//@   call X25519#2 requires bytes(arg0) == csprng(old($draws), 32) && same(arg1, r.theirPublicKey)                               [C05 C06]
+//@   call hkdf.New#1 requires isfunc(arg0, "crypto/sha256.New") && bytes(arg1) == x25519(csprng(old($draws), 32), bytes(r.theirPublicKey)) && bytes(arg2) == cat(x25519(csprng(old($draws), 32), basepoint()), bytes(r.theirPublicKey)) && bytes(arg3) == X25519LABEL   [C05]
+//@   call aeadEncrypt#1 requires same(arg1, fileKey)                                                                              [C01 C05]
+//@   ensures#one err == nil ==> len(stanzas) == 1 && stanzas[0] != nil
+//@   ensures#shape err == nil ==> stanzas[0].Type == "X25519" && len(stanzas[0].Args) == 1 && stanzas[0].Args[0] == b64raw(x25519(csprng(old($draws), 32), basepoint()))   [C01 C05]
+//@   ensures#body err == nil ==> bytes(stanzas[0].Body) == seal(x25519Key(x25519(csprng(old($draws), 32), bytes(r.theirPublicKey)), x25519(csprng(old($draws), 32), basepoint()), bytes(r.theirPublicKey)), zeros(12), old(bytes(fileKey)))   [C01 C05]
+//@   ensures#draws $draws == old($draws) + 1                                                                                     [C06]
+//@   ensures#frame r.theirPublicKey == old(r.theirPublicKey)                                                                     [C20]
+//@   fresh stanzas when err == nil
+
+//@ func (*X25519Identity).unwrap(i, block) (fk, err)
+//@   requires block != nil && len(i.secretKey) == 32 && len(i.ourPublicKey) == 32
+//@   call X25519#1 requires same(arg0, i.secretKey) && bytes(arg1) == unb64raw(block.Args[0]) && len(arg1) == 32                  [C05 C14]
+//@   call hkdf.New#1 requires isfunc(arg0, "crypto/sha256.New") && bytes(arg1) == x25519(bytes(i.secretKey), unb64raw(block.Args[0])) && bytes(arg2) == cat(unb64raw(block.Args[0]), bytes(i.ourPublicKey)) && bytes(arg3) == X25519LABEL   [C05]
+//@   call aeadDecrypt#1 requires arg1 == 16 && same(arg2, block.Body)                                                              [C05]
+//@   ensures#foreign block.Type != "X25519" ==> err == ErrIncorrectIdentity                                                        [C01 C04]
+//@   ensures#nil err != nil ==> fk == nil                                                                                          [C01 C04]
+//@   ensures#wrongkey (block.Type == "X25519" && len(block.Args) == 1 && b64rawok(block.Args[0]) && len(unb64raw(block.Args[0])) == 32 && x25519ok(bytes(i.secretKey), unb64raw(block.Args[0])) && len(block.Body) == 32 && !openok(x25519Key(x25519(bytes(i.secretKey), unb64raw(block.Args[0])), unb64raw(block.Args[0]), bytes(i.ourPublicKey)), zeros(12), bytes(block.Body))) ==> err == ErrIncorrectIdentity   [C04]
+//@   ensures#ok err == nil ==> block.Type == "X25519" && len(fk) == 16 && bytes(fk) == open(x25519Key(x25519(bytes(i.secretKey), unb64raw(block.Args[0])), unb64raw(block.Args[0]), bytes(i.ourPublicKey)), zeros(12), bytes(block.Body))   [C01 C04]
+//@   ensures#opens (block.Type == "X25519" && len(block.Args) == 1 && b64rawok(block.Args[0]) && len(unb64raw(block.Args[0])) == 32 && x25519ok(bytes(i.secretKey), unb64raw(block.Args[0])) && len(block.Body) == 32 && openok(x25519Key(x25519(bytes(i.secretKey), unb64raw(block.Args[0])), unb64raw(block.Args[0]), bytes(i.ourPublicKey)), zeros(12), bytes(block.Body))) ==> err == nil   [C01]
+//@   modifies nothing
+
+//@ pred scryptKeyOf(pw, salt16, logN) := scryptkdf(pw, cat(SCRYPTLABEL, salt16), pow2(logN), 8, 1, 32)
+
+//@ func (*ScryptRecipient).Wrap(r, fileKey) (stanzas, err)
+//@   requires 1 <= r.workFactor && r.workFactor <= 30
+//@   call rand.Read#1 requires len(arg0) == 16                                                                                     [C06]
+//@   call scrypt.Key#1 requires same(arg0, r.password) && bytes(arg1) == cat(SCRYPTLABEL, csprng(old($draws), 16)) && arg2 == pow2(r.workFactor) && arg3 == 8 && arg4 == 1 && arg5 == 32   [C05 C06]
+//@   call aeadEncrypt#1 requires same(arg1, fileKey)                                                                                [C01 C05]
+//@   ensures#one err == nil ==> len(stanzas) == 1 && stanzas[0] != nil
+//@   ensures#shape err == nil ==> stanzas[0].Type == "scrypt" && len(stanzas[0].Args) == 2 && stanzas[0].Args[0] == b64raw(csprng(old($draws), 16)) && stanzas[0].Args[1] == itoa(r.workFactor)   [C01 C05 C10]
+//@   ensures#body err == nil ==> bytes(stanzas[0].Body) == seal(scryptKeyOf(bytes(r.password), csprng(old($draws), 16), r.workFactor), zeros(12), old(bytes(fileKey)))   [C01 C05]
+//@   ensures#draws $draws == old($draws) + 1                                                                                       [C06 C10]
+//@   ensures#frame r.password == old(r.password) && r.workFactor == old(r.workFactor)                                               [C20]
+//@   fresh stanzas when err == nil
+
+//@ func (*ScryptRecipient).WrapWithLabels(r, fileKey) (stanzas, labels, err)
+//@   requires 1 <= r.workFactor && r.workFactor <= 30
+//@   ensures#label err == nil ==> len(labels) == 1 && labels[0] == hexenc(csprng($draws - 1, 16)) && $draws - 1 > old($draws)      [C06 C10 C11]
+//@   ensures#draws $draws >= old($draws)
+//@   ensures#stanzas err == nil ==> (forall j in 0..len(stanzas) :: stanzas[j] != nil)
+//@   fresh stanzas when len(stanzas) > 0
+//@   fresh labels when len(labels) > 0
+//@   modifies $draws
+
+//@ func (*ScryptIdentity).unwrap(i, block) (fk, err)
+//@   requires block != nil && 1 <= i.maxWorkFactor && i.maxWorkFactor <= 30
+//@   call scrypt.Key#1 requires canondec(block.Args[1]) && 1 <= atoi(block.Args[1]) && atoi(block.Args[1]) <= i.maxWorkFactor && arg2 == pow2(atoi(block.Args[1])) && arg3 == 8 && arg4 == 1 && arg5 == 32 && same(arg0, i.password) && bytes(arg1) == cat(SCRYPTLABEL, unb64raw(block.Args[0])) && len(unb64raw(block.Args[0])) == 16   [C05 C10 C14]
+//@   call aeadDecrypt#1 requires arg1 == 16 && same(arg2, block.Body)                                                               [C05]
+//@   ensures#foreign block.Type != "scrypt" ==> err == ErrIncorrectIdentity && $scryptcalls == old($scryptcalls)                    [C01 C04 C10]
+//@   ensures#nil err != nil ==> fk == nil                                                                                           [C01 C04]
+//@   ensures#bound (block.Type == "scrypt" && len(block.Args) == 2 && (!canondec(block.Args[1]) || atoi(block.Args[1]) > i.maxWorkFactor)) ==> err != nil && $scryptcalls == old($scryptcalls)   [C10 C14]
+//@   ensures#calls $scryptcalls <= old($scryptcalls) + 1                                                                            [C10 C14]
+//@   ensures#wrongkey (err != nil && $scryptcalls == old($scryptcalls) + 1 && len(block.Body) == 32) ==> err == ErrIncorrectIdentity   [C04]
+//@   ensures#ok err == nil ==> block.Type == "scrypt" && len(fk) == 16 && bytes(fk) == open(scryptKeyOf(bytes(i.password), unb64raw(block.Args[0]), atoi(block.Args[1])), zeros(12), bytes(block.Body))   [C01 C04]
+//@   ensures#opens (block.Type == "scrypt" && len(block.Args) == 2 && b64rawok(block.Args[0]) && len(unb64raw(block.Args[0])) == 16 && canondec(block.Args[1]) && atoi(block.Args[1]) <= i.maxWorkFactor && len(block.Body) == 32 && openok(scryptKeyOf(bytes(i.password), unb64raw(block.Args[0]), atoi(block.Args[1])), zeros(12), bytes(block.Body))) ==> err == nil   [C01]
+//@   modifies $scryptcalls
+
+//@ func (*ScryptIdentity).Unwrap(i, stanzas) (fk, err)
+//@   requires 1 <= i.maxWorkFactor && i.maxWorkFactor <= 30 && (forall j in 0..len(stanzas) :: stanzas[j] != nil)
+//@   loop 1 invariant -1 <= rangeindex && rangeindex < len(stanzas)
+//@   loop 1 invariant#noscrypt len(stanzas) != 1 ==> (forall j in 0..rangeindex+1 :: stanzas[j].Type != "scrypt")   [C10]
+//@   loop 1 decreases len(stanzas) - rangeindex
+//@   ensures#alone (len(stanzas) != 1 && (exists j in 0..len(stanzas) :: stanzas[j].Type == "scrypt")) ==> fk == nil && err != nil && !wraps(err, ErrIncorrectIdentity) && $scryptcalls == old($scryptcalls)   [C10]
+//@   ensures#nil err != nil ==> fk == nil                                                                                           [C01 C04]
